@@ -128,9 +128,56 @@ def overlapping_calls(ctx, rng, n):
                              {"overlap": "async", "desc": desc})
 
 
+def caps_by_retry_events(ctx, sc, entry):
+    """The caps counted on the library's own `retry` events (each is a granted retry and names the failure's class): they bind
+    also when a callback of the backoff phase fails in one particular attempt and execute() contains the error as one more failed
+    attempt - an allowance already granted is not given back."""
+    recs, h, w = rig.run(sc, entry)
+    ctx.inc("runs")
+    ctx.inc("calls", len(recs))
+    cfg = sc["cfg"]
+    for rec in recs:
+        per = {}
+        nops = 0
+        for ev in rec.trace:
+            if ev[0] == "op":
+                nops += 1
+            elif ev[0] == "metric" and ev[1] == "retry":
+                k = dict(ev[4]).get("class")
+                per[k] = per.get(k, 0) + 1
+        ctx.inc("cap_accounts_checked")
+        if rec.fault_fired:
+            ctx.inc("cap_accounts_checked_after_a_contained_callback_error")
+        if nops > cfg["max_attempts"]:
+            ctx.viol("global-cap", f"[{entry} call#{rec.idx}] {nops} invocations, max_attempts={cfg['max_attempts']} (fault plan {sc.get('fault')})", common.payload(sc, entry, rec.idx))
+            return
+        for k, n in per.items():
+            lim = (cfg.get("per_class") or {}).get(k)
+            if k == "UNKNOWN" and cfg.get("max_unknown") is not None:
+                lim = cfg["max_unknown"] if lim is None else min(lim, cfg["max_unknown"])
+            if lim is not None and n > lim:
+                ctx.viol("per-class-cap" if k != "UNKNOWN" else "unknown-cap", f"[{entry} call#{rec.idx}] {n} retries granted after {k} failures, cap {lim} (fault plan {sc.get('fault')})", common.payload(sc, entry, rec.idx))
+                return
+
+
 def work(ctx, tier):
     stats = {}
     rng = common.rng_for(ctx, "main")
+    # 0. caps counted on retry events, with a backoff-phase callback failing in one particular attempt of execute()
+    for k in range((800 if tier == "quick" else 16000) // ctx.nshards):
+        sc = gen.rand_scenario(rng, max_attempts=(3, 7), p_special=0.0, p_budget=0.1, p_handler=0.5, p_abort=0.0, ncalls=(1, 2), placements=False)
+        sc["cfg"]["per_class"] = {c: rng.randint(0, 2) for c in rng.sample(gen.RETRYABLE, rng.randint(1, 3))}
+        sc["cfg"]["max_unknown"] = rng.choice([None, 1, 2])
+        sc["place"]["hooks"] = rng.choice(["none", "call", "policy"])
+        for c in sc["calls"]:
+            pool = list(sc["cfg"]["per_class"]) * 2 + ["UNKNOWN"]
+            c["outcomes"] = [[rng.choice(["exc", "res"]), rng.choice(pool), None] for _ in range(sc["cfg"]["max_attempts"] + 1)]
+        if k % 4:
+            cbs = ["sleeper", "sleeper", "handler"] + (["aend"] if sc["place"]["hooks"] != "none" else [])
+            sc["fault"] = {"kind": "cb", "cb": rng.choice(cbs), "at": rng.choice([0, 0, 1, 2]), "exc": rng.choice(["RuntimeError", "ValueError", "OSError"])}
+        for e in common.pick_entries(rng, rig.EXECUTE_ENTRIES if sc.get("fault") else rig.ENTRIES, 3):
+            caps_by_retry_events(ctx, sc, e)
+        ctx.inc("cap_account_scenarios")
     # 1. bounded-exhaustive small-scope sweep
     max_len = 3 if tier == "quick" else 4
     per = 2 if tier == "quick" else 4
@@ -193,10 +240,12 @@ def conclude(ctx):
     floors["runs_with_two_caps_tight"] = (ctx.cnt["runs_with_two_caps_tight"], 50)
     floors["overlap_nested_runs"] = (ctx.cnt["overlap_nested_runs"], 50)
     floors["overlap_async_runs"] = (ctx.cnt["overlap_async_runs"], 50)
+    floors["cap_accounts_checked_after_a_contained_callback_error"] = (ctx.cnt["cap_accounts_checked_after_a_contained_callback_error"], 200)
     return dict(
         rule=(
             "bounded-exhaustive sweep (every outcome string up to length L over {ok, exc/res x TRANSIENT/UNKNOWN/PERMANENT} x 128 cap "
             "configurations, entries rotated) + seeded random scenarios over all 20 entry points + reuse-vs-fresh differential; "
+            "+ caps re-counted on the `retry` events of runs in which a sleeper / sleep handler / attempt-end hook fails in one particular attempt of execute(); "
             "a run is non-trivial when it was stopped by a cap (global/per-class/UNKNOWN/non-retryable); distinct = distinct (caps, outcome script, entry)"
         ),
         evaluations=ctx.cnt["calls"],
@@ -225,4 +274,23 @@ def replay(data):
         bad = a != b or O.canon_final(View(recs[j], sc)) != O.canon_final(View(r2[0], solo))
         print("replay:", "violation reproduced" if bad else "no violation on this tree")
         return 1 if bad else 0
+    if p["scenario"].get("fault") and p["scenario"]["fault"].get("kind") == "cb":
+        import collections
+
+        class C:
+            cnt = collections.Counter()
+            bad = []
+
+            def inc(self, *a):
+                pass
+
+            def viol(self, k, m, pl):
+                self.bad.append(m)
+
+        c = C()
+        caps_by_retry_events(c, p["scenario"], p["entry"])
+        for m in c.bad:
+            print("  !!", m)
+        print("replay:", "violation reproduced" if c.bad else "no violation on this tree")
+        return 1 if c.bad else 0
     return common.replay_trace(data, [O.o_caps])
